@@ -34,11 +34,17 @@ func c03Gen(seed uint64, run int, tier string) *Case {
 	c := &Case{Cfg: map[string]int64{}}
 	genSrvCfg(r, c, tier)
 	maxReq := 16
+	c.Cfg["autorel"] = int64(r.Intn(2)) // parked implementation calls may wake up in the middle of activity
 	if tier == "thorough" {
 		maxReq = 64
 	}
 	twice := run%4 == 3
+	cancels := run%4 == 2
 	c.Stratum = "single-answer"
+	if cancels {
+		c.Stratum = "single-answer+cancelled-neighbours"
+		c.Cfg["flushop"] = 1
+	}
 	if twice {
 		c.Stratum = "double-answer"
 		if run%32 == 31 {
@@ -76,6 +82,13 @@ func c03Gen(seed uint64, run int, tier string) *Case {
 			if mode == PTwice || mode == PTwiceLate {
 				isErr = c.Cfg["seconderr"] != 0 && r.Bool()
 			}
+			if cancels && (mode == PHold || mode == PAsync) && r.Pct(50) {
+				// this request is cancelled by a Tflush through the implementation's FlushOp; its worker answers later
+				// all the same (with an error, often): the other requests' replies must not notice
+				c.Ops = append(c.Ops, reqOp(ci, ti, 200+i, mode, r.Pct(60), cnt, r.Pct(30), 1))
+				c.Ops = append(c.Ops, flushOp(ci, 300+i, 200+i, r.Pick(fpWhenHeld, fpNoWait), r.Pct(50)))
+				continue
+			}
 			c.Ops = append(c.Ops, reqOp(ci, ti, i%nslots, mode, isErr, cnt, r.Pct(30), 0))
 		}
 	}
@@ -89,12 +102,13 @@ func c03Exec(x *Ctx) {
 		// re-packs a reply buffer that is in flight or already recycled
 		x.RulePrefix = "duperr:"
 	}
-	w := NewSrvWork(x, false)
+	w := NewSrvWork(x, x.C.cfg("flushop") != 0)
 	w.Start()
 	if !w.RunPhases() {
 		return
 	}
-	w.CheckReplies(nil)
+	// the flushed requests themselves are C07's; every other request, the Tflush requests included, is judged here
+	w.CheckReplies(func(q *wReq) bool { return q.Cancelled || len(q.FlushedBy) > 0 })
 	w.countProbes()
 	// probes
 	outMax := 0
